@@ -25,7 +25,7 @@ def trace_cfg(prop):
 
 def run(out, sc, tier, seed):
     work = sc.work
-    mc_len, replay_len, nrand = (4, 4, 20000) if tier == "quick" else (6, 5, 400000)
+    mc_len, replay_len, nrand = (4, 4, 20000) if tier == "quick" else (6, 5, 120000)
     # R1
     dump = work / "dump-split"
     res = model_check("MC_Split", mc_cfg(replay_len, INVS), work, extra_args=["-dump", str(dump)])
